@@ -639,3 +639,17 @@ Theorem C19_linkage_sum_exact : forall (net : list rxn) (iso : list str),
   list_sum (map (fun c => length c - 1 - rank_c c) L) + length L <= length cs.
 Proof. exact SK.proof.C19_SumExact.linkage_sum_exact_list. Qed.
 Print Assumptions C19_linkage_sum_exact.
+
+(** (44) the one-shot route with the nondegeneracy test: compute_crn_deficiency(run_nondegeneracy=True) that returns normally leaves,
+         from ANY previous state, all four stored groups of the CURRENT network — its summary group, its class deficiencies, the
+         deficiency-one record built from exactly these, and a nondegeneracy record whose nullity is (species - rank) and whose
+         max_complex_size is the largest complex size of THIS network (cf. (23): only the separate call after an edit can mix). *)
+Theorem C19_api_crn_nondeg_current : forall (o : opts) (x : hist_step) (mis : list nat) (st st' : ast),
+  op_crn o x true mis st = (st', ROk) ->
+  let sn := snap_of o x in
+  s_sum st' = Some sn /\ s_ld st' = Some (stored_ld sn) /\ s_one st' = Some (stored_one sn (stored_ld sn)) /\
+  exists d, s_nd st' = Some d /\
+            nd_nullity d = length (species_order (hs_net x) (hs_iso x)) - rc_r (hs_rc x) /\
+            nd_max d = max_complex_size (fst (complex_graph (hs_net x) (hs_iso x))).
+Proof. exact api_crn_nondeg_current. Qed.
+Print Assumptions C19_api_crn_nondeg_current.
